@@ -152,8 +152,33 @@ PROPS["C15"] = {"theorems": [("GdslModel.Props.C15", "G.Sync." + t) for t in ["d
 PROPS["C20"] = {"theorems": [("GdslModel.Props.C20", "G.Live." + t) for t in ["iter_yield_exists", "search_yield_exists", "order_yield_exists", "iter_terminates", "search_eq_static", "order_eq_static", "sync_iter_holds_nothing"]], "oracles": ["c20", "mirror"],
     "rule": "one case = a fresh small graph (all nodes also in a container), one loop (edge iterator out/in/adj; bfs, dfs, pfs-min, pfs-max, preorder, postorder; plain and transposed) whose body / closure runs a script: one operation (connect, try_connect, disconnect, isolate, is_connected, nested bfs, container insert/remove) at one step of the loop - every combination on 2-node graphs (every 6th in the quick tier), scripts that add edges for a bounded number of steps, and random scripts on graphs up to 7 nodes; all four flavours with the lock hook on. distinct_nontrivial = number of cases.",
     "exhaustive": False,
-    "partial": "termination (d) is proved for the edge iterators; for traversals whose closure mutates the graph it is covered by the fuel-bounded model and the correspondence (hang detection after 300 steps), not by a theorem",
-    "level_text": "Machine-checked proof (Lean 4) about the live-loop model (iterators keep only a position and re-read the live list on every step; traversal loops thread an arbitrary program state through every call of the closure, which may connect, disconnect, isolate, touch containers or run nested searches): every edge handed out by an iterator or to a traversal closure is an entry of its source's list in the state at that moment; an edge loop ends within len - pos + 1 steps once the body stops lengthening the list; a closure that does not touch the graph sees exactly the static traversal of C04-C10 (simulation); an iterator step of the sync flavours returns holding no lock, so the closure can take any lock (no self-deadlock), and the plain model has no borrow state between steps. Partial: termination of traversals under mutation is not a theorem (see coverage.partial). Tied to the four flavours by exact correspondence of yielded edges, script results and final graphs: every (graph, loop kind, root, step, operation) combination on 2-node graphs (sampled in quick), bounded edge-adding scripts, random scripts; an oracle re-checks on the real lists that each yielded edge exists when yielded; panics and re-entrant lock requests (lock hook) are failures.",
+    "level_text": "Machine-checked proof (Lean 4) about the live-loop model (iterators keep only a position and re-read the live list on every step; traversal loops thread an arbitrary program state through every call of the closure, which may connect, disconnect, isolate, touch containers or run nested searches): every edge handed out by an iterator or to a traversal closure is an entry of its source's list in the state at that moment; an edge loop ends within len - pos + 1 steps once the body stops lengthening the list; a closure that does not touch the graph sees exactly the static traversal of C04-C10 (simulation); an iterator step of the sync flavours returns holding no lock, so the closure can take any lock (no self-deadlock), and the plain model has no borrow state between steps. Traversals under mutation terminate as well: with a finite node universe, once the closure stops lengthening lists every search and ordering ends within an explicit fuel bound (search_terminates, *_terminates_from, *_terminates_eventually). Tied to the four flavours by exact correspondence of yielded edges, script results and final graphs: every (graph, loop kind, root, step, operation) combination on 2-node graphs (sampled in quick), bounded edge-adding scripts, random scripts; an oracle re-checks on the real lists that each yielded edge exists when yielded; panics and re-entrant lock requests (lock hook) are failures.",
     "level_note": CORR_NOTE + " Runtime behaviour outside the model: user Clone/Drop/Display impls of payloads that themselves touch the graph while a guard is alive.",
     "technique": "Lean 4 proof on the state-threading loop model (yield soundness, iterator termination, simulation to the static traversals) + model/implementation correspondence with scripted callbacks + live-existence oracle",
     "design_ref": "DESIGN.md section 7, C20"}
+
+
+# ---- the proof obligations of a property are ALL theorems of its Props file (derived, so that the list cannot go stale)
+import os as _os, re as _re
+def _theorems_of(pid):
+    f = _os.path.join(_os.path.dirname(_os.path.dirname(_os.path.abspath(__file__))), "lean", "GdslModel", "Props", pid + ".lean")
+    if not _os.path.exists(f):
+        return []
+    src = open(f).read()
+    src = _re.sub(r"/-.*?-/", "", src, flags=_re.S)
+    ns, out = [], []
+    for line in src.split("\n"):
+        m = _re.match(r"\s*namespace\s+(\S+)", line)
+        if m:
+            ns.append(m.group(1)); continue
+        m = _re.match(r"\s*end\s+(\S+)", line)
+        if m and ns and ns[-1] == m.group(1):
+            ns.pop(); continue
+        m = _re.match(r"\s*theorem\s+(\S+)", line)
+        if m:
+            out.append(("GdslModel.Props." + pid, ".".join(ns + [m.group(1)])))
+    return out
+for _pid in list(PROPS):
+    _t = _theorems_of(_pid)
+    if _t:
+        PROPS[_pid]["theorems"] = _t
